@@ -322,12 +322,31 @@ def emit_iface(d, k):
         return "rt::toks(&[%s])" % ", ".join("%s.%d.to_val()" % (var, i) for i in range(len(ts)))
 
     for mode, aw, conn_ty, px in (("async", ".await", "zbus::Connection", "PxProxy"), ("blocking", "", "zbus::blocking::Connection", "PxProxyBlocking")):
-        w("    pub %sfn proxy_%s(conn: &%s, path: &str, op: &rt::POp) -> Option<String> {" % ("async " if mode == "async" else "", mode, conn_ty))
-        w("        let px = match %s::builder(conn).destination(rt::SRV_NAME).ok()?.path(path.to_string()).ok()?" % px)
-        w("            .cache_properties(zbus::proxy::CacheProperties::No).build()%s {" % aw)
-        w("            Ok(p) => p,")
-        w("            Err(e) => return Some(rt::zerr_tok(&e)),")
-        w("        };")
+        asy = "async " if mode == "async" else ""
+        # a proxy with the property cache off (`cached` = false) or with the builder's defaults (cache on, the
+        # `false`-mode properties listed as uncached by the macro)
+        w("    pub %sfn mk_%s(conn: &%s, path: &str, cached: bool) -> Option<Result<%s<'static>, String>> {" % (asy, mode, conn_ty, px))
+        w("        let b = %s::builder(conn).destination(rt::SRV_NAME).ok()?.path(path.to_string()).ok()?;" % px)
+        w("        let b = if cached { b } else { b.cache_properties(zbus::proxy::CacheProperties::No) };")
+        w("        Some(b.build()%s.map_err(|e| rt::zerr_tok(&e)))" % aw)
+        w("    }")
+        w("    pub %sfn proxy_%s(conn: &%s, path: &str, op: &rt::POp) -> Option<String> {" % (asy, mode, conn_ty))
+        w("        match mk_%s(conn, path, false)%s? {" % (mode, aw))
+        w("            Ok(px) => op_%s(&px, op)%s," % (mode, aw))
+        w("            Err(e) => Some(e),")
+        w("        }")
+        w("    }")
+        w("    pub %sfn slot_new_%s(conn: &%s, path: &str, cached: bool) -> Option<Result<Box<dyn std::any::Any + Send + Sync>, String>> {" % (asy, mode, conn_ty))
+        w("        Some(mk_%s(conn, path, cached)%s?.map(|p| Box::new(p) as Box<dyn std::any::Any + Send + Sync>))" % (mode, aw))
+        w("    }")
+        w("    pub %sfn slot_op_%s(slot: &(dyn std::any::Any + Send + Sync), op: &rt::POp) -> Option<String> {" % (asy, mode))
+        w("        op_%s(slot.downcast_ref::<%s<'static>>()?, op)%s" % (mode, px, aw))
+        w("    }")
+        w("    /// the cache's view of the synchronisation sentinel (see main.rs sync_slots)")
+        w("    pub fn slot_sync_%s(slot: &(dyn std::any::Any + Send + Sync)) -> Option<u32> {" % mode)
+        w("        slot.downcast_ref::<%s<'static>>()?.inner().cached_property::<u32>(\"ZvSync\").ok().flatten()" % px)
+        w("    }")
+        w("    pub %sfn op_%s(px: &%s<'static>, op: &rt::POp) -> Option<String> {" % (asy, mode, px))
         w("        match op {")
         w("            rt::POp::Method { name, args } => match name.as_str() {")
         for m in d["methods"]:
@@ -528,6 +547,12 @@ def emit_tables(descs, crate_of):
     table("pub async fn register(idx: usize, os: &zbus::ObjectServer, path: &str) -> zbus::Result<bool>", "register(os, path)", ".await")
     table("pub async fn proxy_async(idx: usize, conn: &zbus::Connection, path: &str, op: &rt::POp) -> Option<String>", "proxy_async(conn, path, op)", ".await")
     table("pub fn proxy_blocking(idx: usize, conn: &zbus::blocking::Connection, path: &str, op: &rt::POp) -> Option<String>", "proxy_blocking(conn, path, op)", "")
+    table("pub async fn slot_new_async(idx: usize, conn: &zbus::Connection, path: &str, cached: bool) -> Option<Result<Box<dyn std::any::Any + Send + Sync>, String>>", "slot_new_async(conn, path, cached)", ".await")
+    table("pub fn slot_new_blocking(idx: usize, conn: &zbus::blocking::Connection, path: &str, cached: bool) -> Option<Result<Box<dyn std::any::Any + Send + Sync>, String>>", "slot_new_blocking(conn, path, cached)", "")
+    table("pub async fn slot_op_async(idx: usize, slot: &(dyn std::any::Any + Send + Sync), op: &rt::POp) -> Option<String>", "slot_op_async(slot, op)", ".await")
+    table("pub fn slot_op_blocking(idx: usize, slot: &(dyn std::any::Any + Send + Sync), op: &rt::POp) -> Option<String>", "slot_op_blocking(slot, op)", "")
+    table("pub fn slot_sync_async(idx: usize, slot: &(dyn std::any::Any + Send + Sync)) -> Option<u32>", "slot_sync_async(slot)", "")
+    table("pub fn slot_sync_blocking(idx: usize, slot: &(dyn std::any::Any + Send + Sync)) -> Option<u32>", "slot_sync_blocking(slot)", "")
     table("pub async fn signal_async(idx: usize, client: &zbus::Connection, server: &zbus::Connection, path: &str, name: &str, args: &[rt::Val]) -> Option<String>",
           "signal_async(client, server, path, name, args)", ".await")
     table("pub fn signal_blocking(idx: usize, client: &zbus::blocking::Connection, server: &zbus::Connection, path: &str, name: &str, args: &[rt::Val]) -> Option<String>",
@@ -926,6 +951,31 @@ def gen33(rng, d, tier):
                 ops.append(call_op(path, PR, "GetAll", sname(iname(d))))
         if ops:
             cases.append("33 %s %s %s" % (desc_token(d), layout, " ".join(ops)))
+    # property histories PER PROXY INSTANCE: read -> change (through that proxy, through another proxy, by a raw Set)
+    # -> read again through the SAME proxy; default caching and CacheProperties::No (control), async and blocking
+    rprops = [p for p in d["props"] if "r" in p["acc"]]
+    if rprops:
+        for ci in range(2 if tier == "quick" else 5):
+            path = "/zv/a"
+            slots = [("s1", "a", "c"), ("s2", "b", "c"), ("s3", rng.choice("ab"), "n")]
+            ops = ["pn:%s:%s:%s:%s" % (n, ab, c, path) for n, ab, c in slots]
+            if ci % 2 == 1:
+                ops = ops[:1] + [call_op(path, PR, "GetAll", sname(iname(d)))] + ops[1:]
+            order = list(rprops)
+            rng.shuffle(order)
+            for p in order:
+                ops += ["qg:%s:%s" % (n, p["name"]) for n, _, _ in slots]               # populate the caches
+                if "w" in p["acc"]:
+                    for how in rng.sample(["s1", "s2", "s3", "raw", "fresh"], 3):
+                        v = gen_val(rng, p["ty"])
+                        if how == "raw":
+                            ops.append(call_op(path, PR, "Set", "%s,%s,v%s" % (sname(iname(d)), sname(p["name"]), v)))
+                        elif how == "fresh":
+                            ops.append("ps:%s:%s:%s:%s" % (rng.choice("ab"), path, p["name"], v))
+                        else:
+                            ops.append("qs:%s:%s:%s" % (how, p["name"], v))
+                        ops += ["qg:%s:%s" % (n, p["name"]) for n, _, _ in slots]       # ... and read again, same proxies
+            cases.append("33 %s L%s=D %s" % (desc_token(d), path, " ".join(ops)))
     return cases
 
 
@@ -1003,7 +1053,7 @@ def meets_op(impl, spec):
                 and imf[3] == sf[3] and imf[4] == sf[4])
     if not reply_meets(sf[0], imf[0]):
         return False
-    return all(wild(a, b) for a, b in zip(sf[1:], imf[1:]))
+    return all(a == "*" or wild(a, b) for a, b in zip(sf[1:], imf[1:]))
 
 
 # ---------------------------------------------------------------- the strict XML reader (Python's expat)
